@@ -33,7 +33,8 @@ def gen_cases(tier, seed):
     q = tier == "quick"
     cases = []
     secs = [(3, (2, 1)), (3, (1, 1)), (4, (2, 2)), (4, (2, 1)), (4, (3, 1)), (3, (2, 2))]
-    for (norb, ne) in secs:
+    # more beta than alpha electrons (unrestricted walkers): pure-beta excitation ranks then exceed the number of alpha electrons
+    for (norb, ne) in secs + [(4, (1, 2)), (4, (1, 3)), (5, (1, 3)), (3, (1, 2))]:
         for rep in range(2 if q else 8):
             cases.append({"type": "meaning", "norb": norb, "nelec": list(ne), "s": int(rng.integers(1 << 30)), "group": "mean-%d-%s" % (norb, ne), "cost": 8})
     for rep in range(8 if q else 60):
